@@ -9,7 +9,7 @@
    own steps ends the call within a fixed bound.  That the runnable threads are actually scheduled
    (CPython's scheduler is fair, Condition.wait() has no lost wake-ups of its own) is assumed. *)
 From Coq Require Import ZArith List Bool Arith.
-From NV Require Import Base.Result Model.LlcLife Proofs.LlcLifeSeg Proofs.LlcLife.
+From NV Require Import Base.Result Model.LlcLife Proofs.LlcLifeSeg Proofs.LlcLife Proofs.LlcLifeOwn.
 Import ListNotations.
 
 (* --- one lock-hold segment of the repaired code (the semantic WaitCheck conditions) --------------- *)
@@ -95,6 +95,24 @@ Theorem C09_server_measure_bound : forall th, mu th <= 16.
 Proof. exact mu_bound. Qed.
 Print Assumptions C09_server_measure_bound.
 
+(* single consumer: a socket accepted by a server's accept loop is referred to by one thread only (the
+   loop, then the serve thread it starts) - for all schedules *)
+Theorem C09_served_socket_single_consumer : forall sched t1 t2 o,
+  let g := run (init Fixed) sched in
+  srv (sk g o) = true -> In o (tref (thr g t1)) -> In o (tref (thr g t2)) -> t1 = t2.
+Proof. exact served_socket_single_consumer. Qed.
+Print Assumptions C09_served_socket_single_consumer.
+(* hence the recv() a serve loop issues after poll('recv') returned True never waits and never returns
+   None (no `bytearray(None)` / `request += None` TypeError at the end of the link): in that phase the
+   thread is about to call / inside recv(), or holds its result: data or nfc.llcp.Error *)
+Theorem C09_serve_recv_never_none : forall sched t c,
+  let g := run (init Fixed) sched in
+  mode (thr g t) = MServe c 1 ->
+  ts (thr g t) = At c PRecv0 \/ ts (thr g t) = At c PRecv1
+  \/ exists r, ts (thr g t) = Done r /\ (r = Ok VData \/ is_llcp r = true).
+Proof. exact serve_recv_never_none. Qed.
+Print Assumptions C09_serve_recv_never_none.
+
 (* --- the unrepaired code violates the property: concrete schedules (also replayed on the real code
        by the scheduler harness) ------------------------------------------------------------------------ *)
 Theorem C09_unrepaired_lost_wakeup :
@@ -114,7 +132,7 @@ Print Assumptions C09_unrepaired_resolve_after_termination_crashes.
 (* the unrepaired link-thread enqueue (state test outside the lock) could queue a CC to a closed socket;
    connect() then revives it.  With the queue empty (invariant of the repaired code) it raises EPIPE *)
 Theorem C09_unrepaired_enqueue_revives_closed_socket :
-  let closed_with_cc := mkSock DLC SHUTDOWN true true true [ICC] 0 1 1 0 0 in
+  let closed_with_cc := mkSock DLC SHUTDOWN true true true [ICC] 0 1 1 0 0 false in
   st (o_sock (seg Fixed PConn2 closed_with_cc false true)) = ESTABLISHED /\
   o_act (seg Fixed PConn2 (set_rq closed_with_cc []) false true) = ARet (Err (LlcpError EPIPE)).
 Proof. exact revive_needs_empty_queue. Qed.
